@@ -141,7 +141,7 @@ def run(ctx):
     for sig, v in bb['bad'].items():
         if sig not in bad: bad[sig] = v
     for sig, (p, s, out) in bad.items():
-        ctx.violation(sig, 'UCI liveness: ' + p, {'script (delay_in_polls line)': [f'{d} {l}' for d, l in s] if isinstance(s, list) else s, 'engine_transcript': out[-2500:]})
+        ctx.violation(sig, 'UCI liveness: ' + p, {'script (delay_in_polls line)': [(f'{x[0]} {x[1]}' if isinstance(x, tuple) else str(x)) for x in s] if isinstance(s, list) else s, 'engine_transcript': out[-2500:]})
     if ties and not bad:
         s, el, ml = min(ties, key=lambda t: len(t[0]))
         ctx.broken.append(vlib.Broken('correspondence stream uci-session: engine transcript and session model differ',
@@ -179,6 +179,11 @@ def blackbox(ctx):
         ('eof-idle', [('uci', 0.1), (None, 0)], lambda o, rc: rc == 0 and 'uciok' in o),
         ('command-after-stop', [('go infinite', 0.2), ('stop', 0), ('isready', 0.3), ('quit', 0)], lambda o, rc: o.count('readyok') == 1 and o.count('bestmove') == 1 and rc == 0),
         ('movetime', [('go movetime 50', 0.5), ('isready', 0.1), ('quit', 0)], lambda o, rc: o.count('bestmove') == 1 and o.count('readyok') == 1 and rc == 0),
+        # searches with a time limit must stay just as responsive (the budgets are far longer than the 5 s the session is given to end)
+        ('isready-stop-during-movetime-search', [('position startpos', 0), ('go movetime 30000', 0.5), ('isready', 0.5), ('stop', 0.3), ('isready', 0.1), ('quit', 0)],
+            lambda o, rc: o.count('readyok') == 2 and o.count('bestmove') == 1 and rc == 0),
+        ('quit-during-clock-search', [('position startpos moves e2e4', 0), ('go wtime 900000 btime 900000 winc 1000 binc 1000', 0.5), ('quit', 0)], lambda o, rc: rc == 0 and o.count('bestmove') == 1),
+        ('eof-during-movetime-search', [('go movetime 30000', 0.5), (None, 0)], lambda o, rc: rc == 0 and o.count('bestmove') == 1),
     ]
     for name, steps, ok in cases:
         out, rc, dt = session(steps)
